@@ -110,11 +110,27 @@ package common
 //@       len(raw) >= minRawLength && expectedBodyHash == H256(hashcat(raw, minRawLength))
 //@   loop 0 invariant i >= 1 && i <= minRawLength && minRawLength <= len(raw) && seq(bodyHashes) == hashcat(raw, i)
 
-// C07 (arithmetic kernel): the offset extractors step over container headers with this function.
+// C07 (arithmetic kernel): the size of a minimal array header, used only where no array header is present.
 //@ func cborArrayHeaderSize(length) (r)
 //@   props C07
 //@   pure
-//@   ensures minimal: length >= 0 && length < 4294967296 ==> r == cbor.minHdrLen(length)
+//@   ensures minimal: length >= 0 ==> r == cbor.minHdrLen(length)
+
+// C07: how far an extractor steps to reach the first item of an array whose encoding starts at d:
+// over the header that is actually present - a definite header of any width, minimal or not, or the
+// single byte of an indefinite-length array - and only if d does not start with a complete array header,
+// over a minimal header for the item count. (That the items of a decoded []RawMessage are the consecutive
+// encodings that follow the container's header is the layout assumption of DESIGN section 6.)
+//@ spec func arrHeadOK(d []byte) bool = len(d) > 0 && cbor.cborMajor(d[0]) == 128 && (cbor.cborAI(d[0]) < 24 ||
+//@     (cbor.cborAI(d[0]) == 24 && len(d) >= 2) || (cbor.cborAI(d[0]) == 25 && len(d) >= 3) ||
+//@     (cbor.cborAI(d[0]) == 26 && len(d) >= 5 && d[1] < 128) ||
+//@     (cbor.cborAI(d[0]) == 27 && len(d) >= 9 && d[1] == 0 && d[2] == 0 && d[3] == 0 && d[4] == 0 && d[5] < 128) ||
+//@     cbor.cborAI(d[0]) == 31)
+//@ spec func stepOver(d []byte, count int) uint32 = ite(arrHeadOK(d), ite(d[0] == 159, uint32(1), uint32(cbor.hdrLen(d[0]))), uint32(cbor.minHdrLen(count)))
+//@ func cborArrayHeaderSizeOf(data, count) (r)
+//@   props C07
+//@   pure
+//@   ensures actual: count >= 0 ==> r == stepOver(data, count)
 
 // C29: native script evaluation equals the ledger's timelock semantics, as a recursive specification
 // over the script tree: pubkey = a 28-byte hash that is among the witness key hashes; all / any /
@@ -461,6 +477,7 @@ package common
 //@   pure
 //@   ensures header: (count >= 0 || indef) ==> hdr >= 1 && hdr <= 9 && int(hdr) <= len(data)
 //@   ensures exact: (count >= 0 || indef) ==> int(hdr) == ite(data[0] == 159 || data[0] == 191, int(1), cbor.hdrLen(data[0])) && (indef <==> (data[0] == 159))
+//@   ensures valid: (count >= 0 || indef) <==> arrHeadOK(data)
 //@   ensures count: count >= -1 && count <= 2147483647
 //@ func cborMapInfo(data) (count, hdr, indef)
 //@   props C02 C07
@@ -469,8 +486,9 @@ package common
 //@   ensures exact: (count >= 0 || indef) ==> int(hdr) == ite(data[0] == 159 || data[0] == 191, int(1), cbor.hdrLen(data[0])) && (indef <==> (data[0] == 191))
 //@   ensures count: count >= -1 && count <= 2147483647
 //@ func extractOutputOffsets(bodyData, bodyOffset, loc) ()
-//@   props C02
+//@   props C02 C07
 //@   attr tier thorough
+//@   loop 1 invariant rangeindex == -1 ==> (outputPos == outputsArrayOffset + stepOver(subslice(bodyData, ite(arrayStartIdx < len(bodyData), arrayStartIdx, len(bodyData)), len(bodyData)), len(outputsRaw)) || (outputPos == outputsArrayOffset + 1 && arrayStartIdx < len(bodyData) && bodyData[arrayStartIdx] == 159))
 //@ func extractWitnessComponentOffsets(witnessData, baseOffset, loc) ()
 //@   props C02
 //@ func extractDatumOffsets(datumArrayData, baseOffset, result) ()
@@ -493,7 +511,8 @@ package common
 //@   props C02
 //@   requires result: result != nil
 //@ func extractByronOutputOffsets(bodyData, bodyOffset, loc) ()
-//@   props C02
+//@   props C02 C07
+//@   loop 0 invariant rangeindex == -1 ==> (outputPos == outputsAbsOffset + stepOver(bodyParts[1], len(outputsRaw)) || (outputPos == outputsAbsOffset + 1 && outputsArrayStart >= 0 && outputsArrayStart < len(bodyData) && bodyData[outputsArrayStart] == 159))
 //@ func isByronBlock(blockArray) (r)
 //@   props C02
 //@   assigns cells([]cbor.RawMessage), elems(cbor.RawMessage), elems(byte)
@@ -503,16 +522,28 @@ package common
 //@   assigns cells([]cbor.RawMessage), elems(cbor.RawMessage), elems(byte)
 //@   ensures shape: r ==> len(blockArray) == 2
 //@ func extractByronTransactionOffsets(cborData, blockArray) (r, err)
-//@   props C02
+//@   props C02 C07
 //@   requires shape: len(blockArray) == 3
+//@   loop 0 invariant rangeindex == -1 ==> (pairPos == txPayloadOffset + stepOver(bodyParts[0], len(txPayload)) || (pairPos == txPayloadOffset + 1 && int(txPayloadOffset) < len(cborData) && cborData[txPayloadOffset] == 159))
 // (not swept: 4167 paths and a 12-minute run with undecided obligations; callers treat it as an
 // unknown function that may write anything and return anything)
 //@ func extractDijkstraTransactionOffsets(cborData, blockArray) (r, err)
 //@   nobody
 //@ func ExtractTransactionOffsets(cborData) (r, err)
-//@   props C02
-//@   attr tier thorough
+//@   props C02 C07
+//@   loop 0 invariant rangeindex == -1 ==> (bodyPos == txBodiesOffset + stepOver(blockArray[1], len(txBodiesRaw)) || (bodyPos == txBodiesOffset + 1 && int(txBodiesOffset) < len(cborData) && cborData[txBodiesOffset] == 159))
+//@   loop 1 invariant rangeindex == -1 ==> (witnessPos == witnessesOffset + stepOver(blockArray[2], len(witnessesRaw)) || (witnessPos == witnessesOffset + 1 && int(witnessesOffset) < len(cborData) && cborData[witnessesOffset] == 159))
 //@ func ExtractAndSetTransactionCbor(cborData, setBodyCbor, setWitnessCbor, txCount) (err)
 //@   props C02
 //@ func DecodeMetadatumRaw(b) (md, err)
 //@   props C02
+
+// C07: the streaming variant of the extractor takes the same steps (only these two facts are claimed
+// for it: its index expressions depend on d.offsets staying as allocated, which is not under contract).
+//@ func (d *StreamingBlockDecoder) DecodeWithOffsets() (r, err)
+//@   props C07
+//@   attr safe off
+//@   attr tier thorough
+//@   requires built: d != nil && d.stream != nil && d.offsets != nil && d.stream.consumed >= 0 && d.stream.consumed <= len(d.stream.data) && gf(d.stream.dec, limit) <= len(d.stream.data)
+//@   loop 0 invariant rangeindex == -1 ==> bodyPos == txBodiesOffset + stepOver(blockArray[1], len(txBodiesRaw))
+//@   loop 1 invariant rangeindex == -1 ==> witnessPos == witnessesOffset + stepOver(blockArray[2], len(witnessesRaw))
